@@ -2,6 +2,7 @@ import KrakenModel.Util.LTS
 import KrakenModel.Model.TagStore
 import KrakenModel.Proof.C30
 import KrakenModel.Proof.C30Live
+import KrakenModel.Proof.RetryLift
 /-
   C32  Build-index tag puts are dependency-checked, stable and written back.
   Statements are about `Model.TagStore` (tagserver.putTag + tagstore.Put/Get + the write-back
@@ -493,6 +494,144 @@ theorem exec_writes_back (s : State) (hi : Inv s) (t : Tag) (p : Retry.Pool)
     simp only at hok
     subst hok
     exact ⟨e.done rfl hd, rfl⟩
+
+/-! ### asynchronous mode: eventually written back -/
+
+/-- the composite step that performs a retry-manager system step -/
+def lift : Retry.Op → Op
+  | .finish t _ => .exec t true
+  | o => .retry o
+
+theorem runExecutor_up_ok (disk backend : List (Tag × Digest)) (t : Tag) :
+    (runExecutor disk backend t true).1 = true := by
+  unfold runExecutor
+  split
+  · rfl
+  · cases lookup disk t <;> simp
+
+theorem lift_step (s : State) (hi : Inv s) (o : Retry.Op) (ho : Retry.SysOp o) (hn : Retry.NoAdding s.r) :
+    (step s (lift o)).r = Retry.step s.r o ∧ (step s (lift o)).disk = s.disk ∧
+    (step s (lift o)).okPut = s.okPut ∧ (step s (lift o)).writeThrough = s.writeThrough := by
+  cases o <;> simp only [Retry.SysOp] at ho
+  case finish t ok =>
+    subst ho
+    simp only [lift, step, stepO]
+    cases hp : Retry.placeOf s.r.own t with
+    | none => simp [Retry.step, Retry.stepO, hp]
+    | some pl =>
+      cases pl with
+      | running p =>
+        have hok := runExecutor_up_ok s.disk s.backend t
+        cases hr : runExecutor s.disk s.backend t true with
+        | mk ok b' =>
+          rw [hr] at hok
+          simp only at hok
+          subst hok
+          exact ⟨rfl, rfl, rfl, rfl⟩
+      | adding => simp [Retry.step, Retry.stepO, hp]
+      | retrying => simp [Retry.step, Retry.stepO, hp]
+      | queued p => simp [Retry.step, Retry.stepO, hp]
+  case addEnq t =>
+    have := (Retry.noAdding_step s.r (.addEnq t) hn (by simp [Retry.SysOp])).2 t rfl
+    simp [lift, step, stepO, internalOp, this]
+  all_goals simp [lift, step, stepO, internalOp]
+
+theorem lift_run (ops : List Retry.Op) (hs : ∀ o ∈ ops, Retry.SysOp o) (s : State) (hi : Inv s)
+    (hn : Retry.NoAdding s.r) :
+    ((ops.map lift).foldl step s).r = ops.foldl Retry.step s.r ∧ ((ops.map lift).foldl step s).disk = s.disk ∧
+    Inv ((ops.map lift).foldl step s) := by
+  induction ops generalizing s with
+  | nil => exact ⟨rfl, rfl, hi⟩
+  | cons o rest ih =>
+    have ho := hs o (by simp)
+    obtain ⟨a1, a2, _, _⟩ := lift_step s hi o ho hn
+    have hn' : Retry.NoAdding (step s (lift o)).r := by
+      rw [a1]; exact (Retry.noAdding_step s.r o hn ho).1
+    obtain ⟨b1, b2, b3⟩ := ih (fun o' h' => hs o' (List.mem_cons_of_mem _ h')) (step s (lift o)) (step_inv s _ hi) hn'
+    simp only [List.map_cons, List.foldl_cons]
+    exact ⟨by rw [b1, a1], by rw [b2, a2], b3⟩
+
+/-- **C32 (3d) eventually written back, in the no-absorbing-state form.**  In every reachable state of a
+node in asynchronous mode, for every tag with an acknowledged PUT whose digest the backend does not
+hold yet, there is a continuation — a process restart, then only the retry manager's own steps and
+executor runs against a reachable backend — after which the backend holds exactly the node's digest. -/
+theorem eventually_written_back (cfg : Retry.Config) (hc : Retry.WFCfg cfg) (ops : List Op) (t : Tag)
+    (hok : t ∈ ((sys cfg false).run ops).okPut)
+    (hnb : lookup ((sys cfg false).run ops).backend t ≠ lookup ((sys cfg false).run ops).disk t) :
+    ∃ cont : List Op, (∀ o ∈ cont, o = .restart ∨ (∃ r, o = .retry r) ∨ ∃ t', o = .exec t' true) ∧
+      lookup ((sys cfg false).run (ops ++ cont)).backend t = lookup ((sys cfg false).run (ops ++ cont)).disk t ∧
+      (lookup ((sys cfg false).run (ops ++ cont)).disk t).isSome := by
+  let s := (sys cfg false).run ops
+  have hi : Inv s := inv_always cfg false ops
+  have e1 : ∀ (r : Retry.State) (o : Retry.Op), (Retry.step r o).cfg = r.cfg := by
+    intro r o; cases o <;> simp only [Retry.step, Retry.stepO, Retry.enqueue] <;> (repeat' split) <;> rfl
+  have hcfg : s.r.cfg = cfg := by
+    refine Sys.run_inv (sys cfg false) (fun s => s.r.cfg = cfg) rfl ?_ ops
+    intro s a h
+    have : (step s a).r.cfg = s.r.cfg := by
+      cases a with
+      | put t d deps ups =>
+        simp only [step, stepO]
+        cases checkDeps deps <;> simp only <;> try rfl
+        split
+        · split <;> rfl
+        · cases ha : Retry.stepO s.r (.addBegin t 0) with
+          | mk r1 o1 =>
+            have hr1 : r1.cfg = s.r.cfg := by
+              have := e1 s.r (.addBegin t 0); simp only [Retry.step, ha] at this; exact this
+            cases o1 <;> simp only <;> first | rfl | (rw [e1]; exact hr1)
+      | get t up => simp only [step, stepO]; (repeat' split) <;> rfl
+      | retry o =>
+        simp only [step, stepO]
+        split
+        · exact e1 _ _
+        · rfl
+      | exec t up =>
+        simp only [step, stepO]
+        split
+        · cases runExecutor s.disk s.backend t up with
+          | mk ok b' => exact e1 _ _
+        · rfl
+      | restart =>
+        simp only [step, stepO]
+        exact (Retry.restart_facts s.r).1
+    exact this.trans h
+  obtain ⟨hdisk, hbs⟩ := hi.okPut t hok
+  have hstored : stored s t := by
+    rcases hbs with h | ⟨_, h⟩
+    · exact absurd h hnb
+    · exact h
+  let s1 := step s .restart
+  have hi1 : Inv s1 := step_inv s _ hi
+  have hr1 : s1.r = Retry.step (Retry.step s.r .crash) (.start []) := rfl
+  obtain ⟨hcfg1, hup, hown⟩ : s1.r.cfg = s.r.cfg ∧ s1.r.mode = .up ∧ s1.r.own = [] := by
+    rw [hr1]; exact Retry.restart_facts s.r
+  have hst1 : t ∈ Retry.keys s1.r.rows := by
+    apply kept _ _ _ _ (by simp) (by intro inv h; injection h with h; subst h; simp)
+    exact kept _ _ _ hstored (by simp) (by intro inv h; cases h)
+  obtain ⟨rops, hsys, p, hp⟩ := Retry.can_reach_exec s1.r hi1.good hup (by rw [hcfg1, hcfg]; exact hc) t hst1
+  have hn1 : Retry.NoAdding s1.r := by intro e he; rw [hown] at he; cases he
+  obtain ⟨l1, l2, l3⟩ := lift_run rops hsys s1 hi1 hn1
+  refine ⟨.restart :: (rops.map lift ++ [.exec t true]), ?_, ?_⟩
+  · intro o ho
+    rcases List.mem_cons.mp ho with rfl | ho
+    · exact Or.inl rfl
+    · rcases List.mem_append.mp ho with ho | ho
+      · obtain ⟨o', _, rfl⟩ := List.mem_map.mp ho
+        cases o' <;> simp [lift]
+      · simp at ho; subst ho; exact Or.inr (Or.inr ⟨t, rfl⟩)
+  · have hrun : Retry.placeOf ((rops.map lift).foldl step s1).r.own t = some (.running p) := by rw [l1]; exact hp
+    have hd2 : (lookup ((rops.map lift).foldl step s1).disk t).isSome := by
+      rw [l2]; exact hdisk
+    have := exec_writes_back _ l3 t p hrun hd2
+    have hrun' : (sys cfg false).run (ops ++ .restart :: (rops.map lift ++ [.exec t true])) =
+        step ((rops.map lift).foldl step s1) (.exec t true) := by
+      simp [Sys.run, sys, List.foldl_append, s1, s]
+    rw [hrun']
+    refine ⟨this.1, ?_⟩
+    have hds : (step ((rops.map lift).foldl step s1) (.exec t true)).disk = ((rops.map lift).foldl step s1).disk := by
+      simp only [step, stepO, hrun]
+    rw [hds]; exact hd2
 
 -- non-vacuity: write-through with a backend outage on the first two attempts; a refused PUT; a second
 -- PUT with another digest; asynchronous mode with a failed and a retried write-back
